@@ -193,13 +193,14 @@ Definition lb_alt_const (c : expr) (la : lookkind) : Prop :=
   | _, _ => True
   end.
 
-(* a counted repeat has lo <= hi (the parser rejects {3,2}).  [lk = false]: no conditional at all;
+(* ([lo <= hi] for counted repeats is no hypothesis: the compiler rejects the others.)
+   [lk = false]: no conditional at all;
    [lk = true]: conditionals may occur, except inside the body of an atomic group, of a look-around
    or in the condition position of a conditional (where a leaked auxiliary-stack entry would be
    popped by the enclosing EndAtomic: F-condleak) *)
 Fixpoint rok (b : bool) (e : expr) : Prop :=
   match e with
-  | Repeat c lo hi _ => (lo <= hi)%N /\ rok b c
+  | Repeat c _ _ _ => rok b c
   | Concat es | Alt es => (fix go (l : list expr) : Prop := match l with [] => True | x :: r => rok b x /\ go r end) es
   | Group c => rok b c
   | LookAround c la => rok false c /\ (is_behind la = true -> zok c)   (* the \Z helper only under a look-ahead *)
@@ -1207,7 +1208,7 @@ Proof. destruct st. reflexivity. Qed.
 Lemma seg_repeat c lo hi gr : seg_stmt c -> seg_stmt (Repeat c lo hi gr).
 Proof.
   intros IH. start (Repeat c lo hi gr).
-  cbn [wfe] in Hw. cbn [zok] in Hz. cbn [acheck] in Hac. cbn [rok] in Hrk. destruct Hrk as [Hlh Hrk]. cbn [ngroups] in Hng. replace (N.ltb hi lo) with false in Hv by (symmetry; apply N.ltb_ge; exact Hlh).
+  cbn [wfe] in Hw. cbn [zok] in Hz. cbn [acheck] in Hac. cbn [rok] in Hrk. cbn [ngroups] in Hng. destruct (N.ltb_spec hi lo) as [|Hlh]; [discriminate|].
   pose proof (body_pres c g Hw) as Hpres.
   assert (Hoc : oke g c) by (repeat split; auto).
   destruct (N.eqb lo 0 && N.eqb hi 1) eqn:EA.
@@ -2644,7 +2645,7 @@ Qed.
 Lemma seg_repeatD lk c lo hi gr : seg_stmtD lk c -> seg_stmtD lk (Repeat c lo hi gr).
 Proof.
   intros IH. startD (Repeat c lo hi gr). cbn [visit] in Hv. rewrite Edel in Hv. rewrite (atomize_repeat bs c lo hi gr g hc Edel).
-  cbn [wfe] in Hw. cbn [zok] in Hz. cbn [acheck] in Hac. cbn [rok] in Hrk. destruct Hrk as [Hlh Hrk]. cbn [ngroups] in Hng. replace (N.ltb hi lo) with false in Hv by (symmetry; apply N.ltb_ge; exact Hlh).
+  cbn [wfe] in Hw. cbn [zok] in Hz. cbn [acheck] in Hac. cbn [rok] in Hrk. cbn [ngroups] in Hng. destruct (N.ltb_spec hi lo) as [|Hlh]; [discriminate|].
   assert (Hpres : forall hcx st st', st_ok cs st -> In st' (asem c g hcx st) -> st_ok cs st' /\ fst st <= fst st')
     by (intros hcx; apply body_pres; now apply at_wfe).
   assert (Hoc : oke lk g c) by (repeat split; auto).
